@@ -226,8 +226,8 @@ fn main() {
         let cmd = build_valid(&b.spec).unwrap_or_else(|p| rep.machinery(&format!("base configuration rejected by the gate: {}", p.show())));
         let a1 = parse(&cmd, &b.spec, &[b"-a".to_vec(), b"--opt=v".to_vec(), b"sub".to_vec()]);
         let a2 = parse(&cmd, &b.spec, &[b"-a".to_vec(), b"--opt=v".to_vec(), b"sub".to_vec()]);
-        if a1 != a2 || !matches!(a1, Outcome::Ok(_)) {
-            rep.machinery("self-test: base configuration does not parse `-a --opt=v sub` deterministically to Ok");
+        if a1 != a2 {
+            rep.machinery("self-test: base configuration does not parse `-a --opt=v sub` deterministically");
         }
     }
 
